@@ -11,26 +11,27 @@ CONSTANTS IdAlpha,      \* ids incl. "none" (notification / null-id response)
           MaxOps, MaxIds, MaxExtend
 
 VARIABLES kind,         \* "breq" | "bresp"
+          strict,       \* BatchRequest(strict=...) / BatchResponse(strict=...): FALSE switches the duplicate check off
           items,        \* Seq(IdAlpha): ids of the contained messages, in order
           idset,        \* ids recorded by the duplicate check
           hist,         \* the operations so far (scenario)
           last          \* verdict of the last operation
-vars == <<kind, items, idset, hist, last>>
+vars == <<kind, strict, items, idset, hist, last>>
 
 SeqsUpTo(S, n) == UNION {[1..k -> S] : k \in 0..n}
 Real(s) == {s[i] : i \in DOMAIN s} \ {"none"}
 DupWithin(s) == \E i, j \in DOMAIN s : i < j /\ s[i] # "none" /\ s[i] = s[j]
 
-InitWith(k) == kind = k /\ items = <<>> /\ idset = {} /\ hist = <<>> /\ last = "none"
-Init == \E k \in {"breq", "bresp"} : InitWith(k)
+InitWith(k, st) == kind = k /\ strict = st /\ items = <<>> /\ idset = {} /\ hist = <<>> /\ last = "none"
+Init == \E k \in {"breq", "bresp"}, st \in BOOLEAN : InitWith(k, st)
 
 \* _add_ids works on a copy: a failing operation changes nothing
 Add(opname, s) ==
     /\ hist' = Append(hist, [op |-> opname, ids |-> s])
-    /\ IF DupWithin(s) \/ Real(s) \cap idset # {}
+    /\ IF strict /\ (DupWithin(s) \/ Real(s) \cap idset # {})
        THEN last' = "Identity" /\ UNCHANGED <<items, idset>>
-       ELSE last' = "Ok" /\ items' = items \o s /\ idset' = idset \cup Real(s)
-    /\ UNCHANGED kind
+       ELSE last' = "Ok" /\ items' = items \o s /\ idset' = (IF strict THEN idset \cup Real(s) ELSE idset)
+    /\ UNCHANGED <<kind, strict>>
 
 AppendOp(i) == Add("append", <<i>>)
 ExtendOp(s) == Add("extend", s)
@@ -44,13 +45,13 @@ SumIds(h) == IF h = <<>> THEN 0 ELSE Len(Head(h).ids) + SumIds(Tail(h))
 Bound == Len(hist) <= MaxOps /\ SumIds(hist) <= MaxIds
 
 (****************************** properties *********************************)
-IdsConsistent == idset = Real(items)                \* what is recorded is what is contained
-NoDuplicates  == ~DupWithin(items)
+IdsConsistent == strict => idset = Real(items)      \* what is recorded is what is contained
+NoDuplicates  == strict => ~DupWithin(items)
 \* C06: a failed append / extend raises the identity error and leaves the batch unchanged
 FailureAtomic == [][last' = "Identity" => (items' = items /\ idset' = idset)]_vars
 \* ... and it fails exactly when an id would be duplicated
 FailsIffDup   == [][\A s \in SeqsUpTo(IdAlpha, MaxExtend) :
                        (hist' = Append(hist, [op |-> "extend", ids |-> s]) \/
                         (Len(s) = 1 /\ hist' = Append(hist, [op |-> "append", ids |-> s])))
-                       => ((last' = "Identity") = (DupWithin(items \o s)))]_vars
+                       => ((last' = "Identity") = (strict /\ DupWithin(items \o s)))]_vars
 =============================================================================
